@@ -14,7 +14,7 @@ ID = "C05"
 LEVEL = "model_checking"
 MIN_OUTCOMES = 4
 MANIFEST = {
-    'text': "Explicit-state exploration of the bump transition system on the real `test` command body: for every pattern of the stated grammar subset and every seed state, ALL flag combinations x tag choices x date kinds are executed and the announced version (or the refusal) must equal what the reference model of the README rules computes; on the README patterns the same events also run through `update --dry` (argv parsing, config loading, the update command's own wiring of the flags) and must announce the same version; successors are expanded (depth 2) on a core subset so non-initial states are covered.",
+    'text': "Explicit-state exploration of the bump transition system on the real `test` command body: for every pattern of the stated grammar subset and every seed state, ALL flag combinations x tag choices x date kinds are executed and the announced version (or the refusal) must equal what the reference model of the README rules computes; on the README patterns the same events also run through `update --dry` (argv parsing, config loading, the update command's own wiring of the flags) and must announce the same version, dated events under three non-UTC process time zones in turn; successors are expanded (depth 2) on a core subset so non-initial states are covered.",
     'note': 'reference model mc/ref/model.py transcribed from README; values outside the alphabets and patterns outside the grammar subset are not covered; `--tag final --tag-num` is treated as unspecified',
     'technique': 'explicit-state model checking of the implementation against a reference model (all events from every explored state)',
 }
@@ -132,12 +132,28 @@ def update_conformance(st, pat, state, old_text, base, events):
     d = pool.fresh_dir("c05u")
     os.chdir(d)
     world.write_tree({"bumpver.toml": f'[bumpver]\ncurrent_version = "{old_text}"\nversion_pattern = "{pat.text}"\n'.encode()})
-    for ev in events:
+    import time
+
+    zones = (None, "JST-9", "PST8PDT", "NZST-12NZDT")  # the process time zone must not move a date given with --date
+    for n, ev in enumerate(events):
         rev = bg.ref_event(ev, base)
         exp = bg.expected(pat, state, old_text, rev)
         if exp[0] != "ok":
             continue
-        o = world.cli("update", "--dry", "--no-fetch", "--ignore-vcs-tag", *bg.cli_args(rev))
+        tz = zones[n % len(zones)] if rev["date"] is not None else None
+        old_tz = os.environ.get("TZ")
+        if tz:
+            os.environ["TZ"] = tz
+            time.tzset()
+        try:
+            o = world.cli("update", "--dry", "--no-fetch", "--ignore-vcs-tag", *bg.cli_args(rev))
+        finally:
+            if tz:
+                if old_tz is None:
+                    os.environ.pop("TZ", None)
+                else:
+                    os.environ["TZ"] = old_tz
+                time.tzset()
         st.evaluations += 1
         st.transitions += 1
         st.validated += 1
@@ -149,7 +165,8 @@ def update_conformance(st, pat, state, old_text, base, events):
         st.outcomes["violation"] += 1
         gs = M.recognise(pat.tree, got) if got else None
         diff = bg.first_diff(pat, gs, exp[2]) if gs is not None else ("refused" if got is None else "unparsable")
-        st.violation(f"C05:update-differs-from-the-rules:{diff}:{bg.mode_key(rev, base)}", {"pattern": pat.text, "old": old_text, "flags": bg.cli_args(rev), "cli": "update"},
+        st.violation(f"C05:update-differs-from-the-rules:{diff}:{bg.mode_key(rev, base)}" + (":TZ" if tz else ""),
+                     {"pattern": pat.text, "old": old_text, "flags": bg.cli_args(rev), "cli": "update", "TZ": tz},
                      {"expected": exp[1], "announced": got, "exit": o.exit, "log": o.log[-2:]})
     os.chdir("/")
 
